@@ -9,7 +9,8 @@ From Verif Require Import Json Outcome.
 
 Record centry := mkEntry {
   ce_expires : option Z;      (* None = end of time *)
-  ce_pending : bool;
+  ce_pending : nat;           (* CachedLocation.Pending: the number of requests that have opened the
+                                 entry and not released it yet *)
   ce_inst : option nat;       (* the loaded instance, if any *)
 }.
 
@@ -46,19 +47,24 @@ Definition mem_of (s : csys) (i : nat) : nat :=
 Definition set_cache (s : csys) (c : list (string * centry)) : csys :=
   mkCsys c (cs_next s) (cs_loads s) (cs_ver s) (cs_mem s) (cs_created s) (cs_cache_ttl s).
 
-(** expire: marks the entry pending (or not), returns the live instance or
-    drops the expired entry.  (The code's `dead` result is always false.) *)
+(** expire: counts the caller in (Open) or out (Release; never below 0), then
+    returns the live entry or drops the expired one.  An entry is live while
+    some request uses it; an entry that nobody uses is live if it holds a
+    location and its time is not up.  (The code's `dead` result is always false.) *)
 Definition expire (s : csys) (name : string) (released : bool) (now : Z) : csys * option centry :=
   match alookup name (cs_cache s) with
   | None => (s, None)
   | Some e =>
-      let e' := mkEntry (ce_expires e) (negb released) (ce_inst e) in
-      let live := ce_pending e' || match ce_expires e' with None => true | Some t => now <? t end in
+      let e' := mkEntry (ce_expires e) (if released then Nat.pred (ce_pending e) else S (ce_pending e)) (ce_inst e) in
+      let live := (0 <? ce_pending e')%nat ||
+                  (match ce_inst e' with Some _ => true | None => false end &&
+                   match ce_expires e' with None => true | Some t => now <? t end) in
       if live then (set_cache s (ainsert name e' (cs_cache s)), Some e')
       else (set_cache s (aremove name (cs_cache s)), None)
   end.
 
-(** CachedLocation.Get on an entry: load once. *)
+(** CachedLocation.Get on an entry: load once.  A failed load leaves the entry
+    as it is (it is dropped by [expire] when its last user releases it). *)
 Definition entry_get (cf : cconf) (s : csys) (name : string) (e : centry) (check : bool) (now : Z)
   : csys * centry * outcome nat :=
   match ce_inst e with
@@ -79,26 +85,32 @@ Definition entry_get (cf : cconf) (s : csys) (name : string) (e : centry) (check
 (** CachedLocations.Open (sequential: both critical sections in one step). *)
 Definition copen (cf : cconf) (s : csys) (name : string) (check : bool) (now : Z) : csys * outcome nat :=
   let '(s1, found) := expire s name false now in
-  match match found with Some e => ce_inst e | None => None end with
-  | Some i => (s1, Ok i)
+  match found with
+  | Some e =>
+      (* the entry is there and the caller is counted *)
+      match ce_inst e with
+      | Some i => (s1, Ok i)
+      | None =>
+          (* made by a request whose load has not succeeded: Get on the SAME entry *)
+          let '(s3, e', r) := entry_get cf s1 name e check now in
+          (set_cache s3 (ainsert name e' (cs_cache s3)), r)
+      end
   | None =>
-      (* no entry, or an entry that is not loaded yet (loc == nil): Open makes a NEW entry,
-         replacing whatever the map holds *)
+      (* no entry: a new one, with the caller as its first user *)
       let expires := match cf_ttl cf with None => None | Some d => Some (now + d) end in
-      let e := mkEntry expires false None in
+      let e := mkEntry expires 1 None in
       let cached := negb (match cf_ttl cf with Some 0 => true | _ => false end) || cf_pending cf in
       let s2 := if cached then set_cache s1 (ainsert name e (cs_cache s1)) else s1 in
       let '(s3, e', r) := entry_get cf s2 name e check now in
-      match r with
-      | Ok _ => (if cached then set_cache s3 (ainsert name e' (cs_cache s3)) else s3, r)
-      | _ => (set_cache s3 (aremove name (cs_cache s3)), r)   (* not cached when the location does not exist *)
-      end
+      (* also after a failed load the entry stays until the caller's Release *)
+      (if cached then set_cache s3 (ainsert name e' (cs_cache s3)) else s3, r)
   end.
 
 Definition crelease (s : csys) (name : string) (now : Z) : csys := fst (expire s name true now).
 
 (** A request through the System: Open, use the instance (a write bumps the
-    storage version and the instance's memory version), Release. *)
+    storage version and the instance's memory version), Release - also after
+    a failed Open (the deferred releaseLocation), also CreateLocation. *)
 Inductive ckind := KRead | KWrite | KCreate | KSetCacheTTL (ms : Z).
 
 Record creq := mkCreq { cq_name : string; cq_kind : ckind; cq_now : Z }.
@@ -207,3 +219,174 @@ Definition conc_run (reuse cached : bool) (n : nat) (sched : list nat) : cconc :
   fold_left (conc_step reuse cached) sched (conc_init n).
 
 Definition all_done (k : cconc) : bool := forallb (fun cl => Nat.eqb (cc_pc cl) 2) (k_clients k).
+
+(** ** The whole life of a cache entry under concurrent requests for ONE
+    location: N clients, each again and again Open (its two critical sections:
+    the system lock, then the entry's lock in CachedLocation.Get) -> use the
+    instance it was given (reads and write-through writes) -> Release, in any
+    interleaving, with clock ticks of any size in between, loads that fail, and
+    a !cacheTTL property that changes at any moment.  Entries have identity (an
+    index into [l_entries]); the cache map holds at most one of them
+    ([l_slot]); Release looks the entry up by NAME, i.e. it works on whatever
+    entry the map holds then.
+
+    [lc_count] = true is the code as repaired: Pending counts the requests that
+    use the entry (Open +1, a new entry starts at 1, Release -1, an entry
+    nobody uses expires when its time is up or when it has no location).
+    [lc_count] = false is the Pending BOOLEAN of the earlier code (Open of an
+    existing entry: true; a new entry: false; Release: false, whoever else
+    still uses the entry; expiry looks at the flag and the time only). *)
+
+Record lconf := mkLconf {
+  lc_ttl : option Z;          (* None = Forever; Some 0 = Never; Some d = d ms *)
+  lc_pending : bool;          (* Control.CachePending *)
+  lc_count : bool;
+}.
+
+Definition lcached (cf : lconf) : bool :=
+  negb (match lc_ttl cf with Some 0 => true | _ => false end) || lc_pending cf.
+
+Record lentry := mkLentry { le_expires : option Z; le_pending : nat; le_inst : option nat }.
+
+Inductive lpc :=
+| LIdle
+| LOpening (ei : nat)         (* between the two critical sections of Open, on entry ei *)
+| LHolding (ei i : nat)       (* Open returned instance i (of entry ei); not released yet *)
+| LFailed (ei : nat).         (* Open returned an error; the deferred Release is still to come *)
+
+Inductive levent :=
+| LStep (j : nat)             (* client j's next critical section: Open 1, Open 2 (Get: load), Release *)
+| LFail (j : nat)             (* client j's load fails (storage error, location does not exist) *)
+| LRead (j : nat)             (* client j reads the instance it holds *)
+| LWrite (j : nat)            (* client j writes through the instance it holds; the write is acknowledged *)
+| LTick (d : Z)               (* the clock moves *)
+| LSetProp (p : option Z).    (* the location's !cacheTTL property changes *)
+
+Record lsys := mkLsys {
+  l_entries : list lentry;
+  l_slot : option nat;                          (* the entry the cache map holds for the location *)
+  l_now : Z;
+  l_prop : option Z;
+  l_next : nat;                                 (* next instance = number of loads so far *)
+  l_store : list nat;                           (* the acknowledged writes (all in storage), newest first *)
+  l_mem : list (nat * list nat);                (* per instance: the writes its memory contains *)
+  l_reads : list (nat * list nat * list nat);   (* read log: (client, what it saw, what was acknowledged then) *)
+  l_clients : list lpc;
+}.
+
+Definition lset {A} (l : list A) (i : nat) (v : A) : list A :=
+  (firstn i l ++ [v] ++ skipn (S i) l)%list.
+
+Definition lentry0 : lentry := mkLentry None O None.
+Definition lentry_at (k : lsys) (ei : nat) : lentry := nth ei (l_entries k) lentry0.
+
+Fixpoint ilookup (i : nat) (l : list (nat * list nat)) : option (list nat) :=
+  match l with
+  | [] => None
+  | (k, v) :: r => if Nat.eqb k i then Some v else ilookup i r
+  end.
+
+Definition lmem_of (k : lsys) (i : nat) : list nat :=
+  match ilookup i (l_mem k) with Some m => m | None => [] end.
+
+Definition lwith_clients (k : lsys) (c : list lpc) : lsys :=
+  mkLsys (l_entries k) (l_slot k) (l_now k) (l_prop k) (l_next k) (l_store k) (l_mem k) (l_reads k) c.
+
+Definition lwith_cache (k : lsys) (es : list lentry) (slot : option nat) : lsys :=
+  mkLsys es slot (l_now k) (l_prop k) (l_next k) (l_store k) (l_mem k) (l_reads k) (l_clients k).
+
+(** Open, first critical section (CachedLocations.Open under the system lock: expire, or a new entry) *)
+Definition lopen1 (cf : lconf) (k : lsys) (j : nat) : lsys :=
+  match l_slot k with
+  | Some ei =>
+      let e := lentry_at k ei in
+      let e' := mkLentry (le_expires e) (if lc_count cf then S (le_pending e) else 1%nat) (le_inst e) in
+      lwith_clients (lwith_cache k (lset (l_entries k) ei e') (Some ei))
+                    (lset (l_clients k) j (match le_inst e with Some i => LHolding ei i | None => LOpening ei end))
+  | None =>
+      let ei := length (l_entries k) in
+      let e := mkLentry (match lc_ttl cf with None => None | Some d => Some (l_now k + d) end)
+                        (if lc_count cf then 1%nat else O) None in
+      lwith_clients (lwith_cache k (l_entries k ++ [e])%list (if lcached cf then Some ei else None))
+                    (lset (l_clients k) j (LOpening ei))
+  end.
+
+(** Open, second critical section (CachedLocation.Get under the entry's lock: load once) *)
+Definition lopen2 (k : lsys) (j ei : nat) : lsys :=
+  let e := lentry_at k ei in
+  match le_inst e with
+  | Some i => lwith_clients k (lset (l_clients k) j (LHolding ei i))
+  | None =>
+      let i := l_next k in
+      let exp := match l_prop k with Some ms => Some (l_now k + ms) | None => le_expires e end in
+      mkLsys (lset (l_entries k) ei (mkLentry exp (le_pending e) (Some i))) (l_slot k) (l_now k) (l_prop k)
+             (S i) (l_store k) ((i, l_store k) :: l_mem k) (l_reads k)
+             (lset (l_clients k) j (LHolding ei i))
+  end.
+
+(** Release (under the system lock), on the entry the map holds NOW *)
+Definition lrelease (cf : lconf) (k : lsys) (j : nat) : lsys :=
+  let k1 :=
+    match l_slot k with
+    | None => k
+    | Some ei =>
+        let e := lentry_at k ei in
+        let p := if lc_count cf then Nat.pred (le_pending e) else O in
+        let e' := mkLentry (le_expires e) p (le_inst e) in
+        let live := (0 <? p)%nat ||
+                    ((if lc_count cf then match le_inst e' with Some _ => true | None => false end else true) &&
+                     match le_expires e' with None => true | Some t => l_now k <? t end) in
+        lwith_cache k (lset (l_entries k) ei e') (if live then Some ei else None)
+    end in
+  lwith_clients k1 (lset (l_clients k1) j LIdle).
+
+Definition lstep (cf : lconf) (k : lsys) (ev : levent) : lsys :=
+  match ev with
+  | LStep j =>
+      match nth_error (l_clients k) j with
+      | Some LIdle => lopen1 cf k j
+      | Some (LOpening ei) => lopen2 k j ei
+      | Some (LHolding _ _) => lrelease cf k j
+      | Some (LFailed _) => lrelease cf k j
+      | None => k
+      end
+  | LFail j =>
+      match nth_error (l_clients k) j with
+      | Some (LOpening ei) =>
+          match le_inst (lentry_at k ei) with
+          | None => lwith_clients k (lset (l_clients k) j (LFailed ei))
+          | Some _ => k       (* the location is there: Get cannot fail *)
+          end
+      | _ => k
+      end
+  | LRead j =>
+      match nth_error (l_clients k) j with
+      | Some (LHolding _ i) =>
+          mkLsys (l_entries k) (l_slot k) (l_now k) (l_prop k) (l_next k) (l_store k) (l_mem k)
+                 ((j, lmem_of k i, l_store k) :: l_reads k) (l_clients k)
+      | _ => k
+      end
+  | LWrite j =>
+      match nth_error (l_clients k) j with
+      | Some (LHolding _ i) =>
+          let w := length (l_store k) in
+          mkLsys (l_entries k) (l_slot k) (l_now k) (l_prop k) (l_next k) (w :: l_store k)
+                 ((i, w :: lmem_of k i) :: l_mem k) (l_reads k) (l_clients k)
+      | _ => k
+      end
+  | LTick d =>
+      mkLsys (l_entries k) (l_slot k) (l_now k + d) (l_prop k) (l_next k) (l_store k) (l_mem k) (l_reads k) (l_clients k)
+  | LSetProp p =>
+      mkLsys (l_entries k) (l_slot k) (l_now k) p (l_next k) (l_store k) (l_mem k) (l_reads k) (l_clients k)
+  end.
+
+Definition linit (n : nat) : lsys := mkLsys [] None 0 None O [] [] [] (repeat LIdle n).
+
+Definition lrun (cf : lconf) (n : nat) (sched : list levent) : lsys := fold_left (lstep cf) sched (linit n).
+
+(** the instance the cache map would hand to the next Open *)
+Definition lslot_inst (k : lsys) : option nat :=
+  match l_slot k with Some ei => le_inst (lentry_at k ei) | None => None end.
+
+Definition luser (c : lpc) : bool := match c with LIdle => false | _ => true end.
+Definition lusers (l : list lpc) : nat := length (filter luser l).
